@@ -293,3 +293,49 @@ func ZZ_C07_KeptWhileActive() {
 	<-done
 	verifAssert(m.Count() == 0 && io.conns[0].closes == 1, "at the end the session is gone and its socket closed once")
 }
+
+// Two sessions of one client each send a datagram in two fragments with the
+// SAME packet id, the four fragments arriving interleaved in any order: each
+// session's socket gets exactly its own datagram, reassembled - nothing of the
+// other session's payload, nothing lost.
+//
+//verif:harness kind=api replay=native+sched unwind=400 preempt=0 bound=2-sessions,2-fragments-each,same-packet-id,every-interleaving
+func ZZ_C07_FragmentIsolation() {
+	io := &zzUDPIO{allow: map[string]bool{"t:1": true}, in: make(chan *protocol.UDPMessage, 8)}
+	m := newUDPSessionManager(io, &zzUDPLog{}, zzTimeout)
+	done := make(chan struct{})
+	go func() {
+		m.Run()
+		close(done)
+	}()
+	mk := func(sid uint32, frag uint8, data byte) *protocol.UDPMessage {
+		f := zzDgram(sid, "t:1", data)
+		f.PacketID, f.FragID, f.FragCount = 77, frag, 2
+		return f
+	}
+	frs := []*protocol.UDPMessage{mk(1, 0, 0xa0), mk(1, 1, 0xa1), mk(2, 0, 0xb0), mk(2, 1, 0xb1)}
+	// any arrival order of the four fragments
+	left := []int{0, 1, 2, 3}
+	for len(left) > 0 {
+		k := verifChoice("next", len(left))
+		f := frs[left[k]]
+		left = append(left[:k], left[k+1:]...)
+		io.curSess = f.SessionID
+		io.in <- f
+		verifQuiesce()
+	}
+	verifAssert(len(io.conns) == 2, "each session has its own socket")
+	for _, c := range io.conns {
+		verifAssert(len(c.writes) == 1, "each session's datagram leaves once, through its own socket")
+		verifAssert(len(c.payloads) == 1 && len(c.payloads[0]) == 2, "reassembled from its two fragments")
+		if c.owner == 1 {
+			verifAssert(c.payloads[0][0] == 0xa0 && c.payloads[0][1] == 0xa1, "session 1's socket carries session 1's payload only")
+		} else {
+			verifAssert(c.payloads[0][0] == 0xb0 && c.payloads[0][1] == 0xb1, "session 2's socket carries session 2's payload only")
+		}
+	}
+	close(io.in)
+	verifQuiesce()
+	<-done
+	verifCover("isolated")
+}
